@@ -96,7 +96,13 @@ pub fn run(tier: Tier) -> i32 {
         let yielded = run_queries("C05", &spec, &bytes, &model, &qs, acc);
         if !uni_file || i % 64 == 0 {
             acc.count("files_also_queried_over_a_short_reading_source", 1);
-            crate::qcheck::run_queries_io("C05", &spec, &bytes, &model, &qs, acc, true);
+            // ... of the file as received by a sink accepting short and interrupted writes
+            match crate::common::write_file_short(&spec.cfg, &model.entries) {
+                Ok(short_bytes) => {
+                    crate::qcheck::run_queries_io("C05", &spec, &short_bytes, &model, &qs, acc, true);
+                }
+                Err(_) => acc.count("prerequisite_failed_writer_error_(C01)", 1),
+            }
         }
         acc.count("entries_yielded", yielded);
         if blocks > spec.cfg.index_levels as usize + 2 {
